@@ -32,7 +32,7 @@ def _in_body(node, body) -> bool:
 
 def rule_exc1(A: Analysis, rep):
     n_exec = 0
-    for f in A.prog.functions.values():
+    for f in A.prog.scan_functions:
         if not f.fq.startswith("conductor.parsing"):
             continue
         for c in walk_local(f.node):
@@ -77,6 +77,30 @@ def rule_exc1(A: Analysis, rep):
                 idx_all = min(i for i, t in enumerate(types) if t in ("Exception", "BaseException", "*"))
                 rep.check("ConductorError" in types[:idx_all], "EXC1", "%s: Conductor's own errors are not re-wrapped" % f.name, tr,
                           "", "`except Exception` would wrap ConductorError (e.g. a task-definition error or an abort) into a parse error: no earlier ConductorError clause")
+    # SCP1: every COND file is evaluated in its own copy of the compiled scope (names defined or included by one
+    # COND file must not be visible in the next one, or an undefined name would be accepted depending on load order)
+    pc = A.fn(TL + "parse_cond_file")
+    ex = [c for c in walk_local(pc.node) if isinstance(c, ast.Call) and isinstance(c.func, ast.Name) and c.func.id == "exec"]
+    ok = False
+    det = "exec of the COND file not found"
+    if len(ex) == 1 and len(ex[0].args) >= 2:
+        gl = ex[0].args[1]
+        src = None
+        if isinstance(gl, ast.Attribute) and norm(gl.value) == "self":
+            st = [s_ for s_ in walk_local(pc.node) if isinstance(s_, ast.Assign) and norm(s_.targets[0]) == norm(gl)]
+            g = A.cfg(pc, "plain")
+            en = g.node_of([x for x in walk_local(pc.node) if isinstance(x, ast.stmt) and ex[0] in list(ast.walk(x)) and not isinstance(x, (ast.Try, ast.With, ast.FunctionDef))][-1])
+            dom = [s_ for s_ in st if g.all_paths_pass(g.entry, en, [g.node_of(s_)], skip_labels=skip)]
+            src = norm(dom[-1].value) if dom else None
+        elif isinstance(gl, ast.Name):
+            v = A.single_def_value(pc, gl.id)
+            src = norm(v) if v is not None else None
+        else:
+            src = norm(gl)
+        fresh = src in ("self._conductor_scope.copy()", "dict(self._conductor_scope)", "{**self._conductor_scope}")
+        ok = fresh
+        det = "the COND file is evaluated with globals `%s` — not a fresh copy of the compiled scope: names leak from one COND file into the next" % src
+    rep.check(ok, "SCP1", "each COND file gets a fresh copy of the scope", pc.node, "exec(code, self._conductor_scope.copy())", det)
     if n_exec < 2:
         raise AnalysisError("EXC1: expected the two exec sites of user code (COND file, included file), found %d" % n_exec)
     rep.expect_min("EXC1", 8)
